@@ -159,7 +159,7 @@ static void search_callback(void *arg, ares_status_t status, size_t timeouts,
   }
 
   /* We have no more domains to search, return an appropriate response. */
-  if (mystatus == ARES_ENOTFOUND && squery->ever_got_nodata) {
+  if (squery->ever_got_nodata) {
     end_squery(squery, ARES_ENODATA, NULL);
     return;
   }
